@@ -33,6 +33,7 @@ PROPS = {
         "level_text": "14 Coq theorems over Model/Range.v for every decidable total order of versions: every range reachable through the public API is canonical; union/intersection/complement are the pointwise set operations on the dense completion of the version order (hence on versions); is_disjoint/subset_of agree with the pointwise definitions; canonical ranges with the same points are structurally equal; a∩b=a iff subset, a∩b=∅ iff disjoint. Tie: all 128x128 pairs of canonical ranges over 3 bound values (thorough: 512x512 over 4) built through three different API construction trees, every observable compared with the extracted model, plus pointwise-law oracles on the Rust results.",
         "level_note": RANGE_NOTE,
         "domains": ["ranges"],
+        "obs_fields": {"ranges": ["built", "compl", "cc", "ma", "mc", "u", "i", "dj", "ss", "eq", "mb", "mu", "mi", "ieqa", "iempty"]},
         "exhaustive": True,
         "rule": "all canonical ranges over bound values {10,20,30} = subsets of the 7 cells (-inf,10),{10},(10,20),...,(30,inf): 128 ranges x 3 construction trees (unary ops) and all 128^2 ordered pairs (binary ops, predicates, ==, cmp, hash), each built through the public API only; thorough adds k=4 (512 ranges, 262144 pairs). distinct = distinct case text; non-trivial = every case (each evaluates the operations on a distinct pair of sets).",
         "assumptions": ["order-isomorphism: the code only compares bound values, so behaviour depends only on their relative order (property text)",
@@ -68,6 +69,7 @@ PROPS = {
         "level_text": "10 Coq theorems: range_cmp = Eq iff equal, antisymmetric, transitive, total, partial_cmp = Some cmp, == iff cmp = Eq, the two 9-arm bound tables are the position orders of start/end bounds (any ordered version type, any segment list, canonical or not); Eq and Hash of the 4-variant SmallVec are functions of as_slice (equal => same hash stream). Tie: cmp/partial_cmp/==/DefaultHasher+FxHasher equality on all 128^2 pairs built through different construction trees, triples sampled (quick) or all 2M (thorough).",
         "level_note": RANGE_NOTE + " The concrete hash functions are not modelled: only that equal values feed equal streams; that == ranges hash equally under DefaultHasher and FxHasher is observed on every pair.",
         "domains": ["rangeord"],
+        "obs_fields": {"rangeord": ["eq", "cmp", "pcmp", "rcmp", "heq", "lt", "gt"]},
         "exhaustive": True,
         "rule": "all 128^2 ordered pairs of canonical ranges over 3 bound values, the two sides built through different API trees (cmp, partial_cmp, reverse cmp, ==, hash equality); triples: 20000 seeded (quick) / all 128^3 (thorough). distinct = distinct case text; all non-trivial.",
         "assumptions": ["std::hash::Hash for tuples/Bound/u32 and the hashers are trusted"],
